@@ -310,20 +310,46 @@ Proof.
     intros Hkt. specialize (Hk Hkt). discriminate Hk.
 Qed.
 
+(* a boolean control only looks at the truthiness of its argument *)
+Definition bnorm (x : Z) : Z := if x =? 0 then 0 else 1.
+Lemma bnorm_range : forall x, bnorm x = 0 \/ bnorm x = 1.
+Proof. intros x. unfold bnorm. destruct (x =? 0); auto. Qed.
+Lemma nz_bnorm : forall x, nz (bnorm x) = nz x.
+Proof. intros x. unfold nz, bnorm. destruct (x =? 0) eqn:E; reflexivity. Qed.
+Lemma bnorm_idem : forall x, bnorm (bnorm x) = bnorm x.
+Proof. intros x. unfold bnorm. destruct (x =? 0); reflexivity. Qed.
+Lemma bnorm_zero : forall x, (bnorm x =? 0) = (x =? 0).
+Proof. intros x. unfold bnorm. destruct (x =? 0) eqn:E; reflexivity. Qed.
+
+Lemma set_concl_bnorm : forall kp cshape ph d l v c x, ctl_is_bool c = true ->
+  set_concl kp cshape ph d l v c (bnorm x) -> set_concl kp cshape ph d l v c x.
+Proof.
+  intros kp cshape ph d l v c x Hb H. unfold set_concl in *.
+  assert (Hset : xt_setctl d c (bnorm x) = xt_setctl d c x).
+  { destruct c; try discriminate Hb; unfold xt_setctl; rewrite ?nz_bnorm; reflexivity. }
+  assert (Hnorm : ctl_norm c (bnorm x) = ctl_norm c x).
+  { unfold ctl_norm. rewrite Hb. fold (bnorm (bnorm x)). fold (bnorm x). apply bnorm_idem. }
+  assert (Hex : forall w, extra_okb cshape c (bnorm x) w = extra_okb cshape c x w).
+  { intros w. destruct c; try discriminate Hb; cbn [extra_okb]; rewrite ?bnorm_zero; reflexivity. }
+  rewrite Hset, Hnorm in H. destruct H as (d' & ts & H1 & H2 & H3 & H4 & H5 & H6).
+  exists d', ts. rewrite Hex in H6. exact (conj H1 (conj H2 (conj H3 (conj H4 (conj H5 H6))))).
+Qed.
+
 Lemma setctl_ok : forall kp cshape ph d l v c x, ph <> Stopped ->
   CInv kp cshape ph d l (view_of v) -> ctl_in_rangeb c x = true ->
   (kp = true -> c = CtlKeypadApp -> x = 0) -> set_concl kp cshape ph d l v c x.
 Proof.
   intros kp cshape ph d l v c x Hph Hinv Hr Hk.
   destruct c; cbn [ctl_in_rangeb] in Hr; try discriminate Hr.
-  - apply set_alt_ok; auto using bool_range.
-  - apply set_cv_ok; auto using bool_range.
+  - apply set_concl_bnorm; [reflexivity|]. apply set_alt_ok; auto using bnorm_range.
+  - apply set_concl_bnorm; [reflexivity|]. apply set_cv_ok; auto using bnorm_range.
   - apply set_mouse_ok; auto. apply andb_true_iff in Hr. destruct Hr as [H1 H2].
     apply Z.leb_le in H1. apply Z.leb_le in H2. lia.
-  - apply set_blink_ok; auto using bool_range.
+  - apply set_concl_bnorm; [reflexivity|]. apply set_blink_ok; auto using bnorm_range.
   - apply set_shape_ok; auto. apply andb_true_iff in Hr. destruct Hr as [H1 H2].
     apply Z.leb_le in H1. apply Z.leb_le in H2. lia.
-  - apply set_keypad_ok; auto using bool_range.
+  - apply set_concl_bnorm; [reflexivity|]. apply set_keypad_ok; auto using bnorm_range.
+    intros Hkp. specialize (Hk Hkp eq_refl). subst x. reflexivity.
 Qed.
 
 (* ==== 3. teardown (= pause = stop) and resume on the view *)
